@@ -167,6 +167,11 @@ def smallstep_cmds(run):
     for op, res in zip(run["final"], run["final_res"]):
         cmds += ["conc call 0 " + op, "conc until 0 ret"]
         exp += ["ok", "ret:" + res]
+    st = run.get("storage") or []
+    if len(st) == 2 and st[0] == "ok":
+        # the storage after the run: every deletion job executed, then the content files that exist
+        cmds += ["conc call 0 drain", "conc until 0 ret", "conc tree"]
+        exp += ["ok", "ret:ok", st[1]]
     return cmds, exp
 
 
